@@ -40,6 +40,13 @@ TEXT = {
             "leftover elements, untouched elements, source immutability, well-formedness and rank consistency at every "
             "yield and after the loop.",
             "Source and destination share depth/shape/default; unowned destinations depth<=2; start_pos only 1-level."),
+    "C06": ("Hypothesis PBT + exhaustive dataflow enumeration: dense einsum oracle, metamorphic equality across dataflows",
+            "Generated einsum-like kernels (1-3 operands, 1-3 indices) interpreted strictly in the library idiom under 2-4 "
+            "drawn dataflows (loop order, uniform tiling, nested / flat two-finger or leader-follower intersection); 13 "
+            "named expressions x every loop order x every tile x 3 styles enumerated; output content compared with the "
+            "dense evaluation and across dataflows.",
+            "Trusts the kernel interpreter (vf/kernels.py) to be a faithful rendering of the idiom; operand default 0; "
+            "shapes<=4."),
     "C07": ("Hypothesis PBT: traversal requests vs list model (presented / dense), payload identity, snapshot deltas",
             "Generated fibers (leaf / 2-level, C / U format, active ranges, explicit defaults) with 1-5 traversal requests "
             "each, covering all iterators, reference forms, dense co-iteration, project / prune and lazy re-iteration, "
@@ -72,6 +79,14 @@ TEXT = {
             "swizzle / flatten / split chains (tuple coordinates, tuple shapes); content, shape, rank ids, names checked "
             "after every conversion; rank-0 enumerated; fromRandom reproducibility, bounds and density-1 fill.",
             "YAML / dict forms carry no default (documented Todo): defaults are re-applied before comparing."),
+    "C15": ("Hypothesis PBT over kernels x metrics configurations x session pre-histories: independent operation counters, "
+            "on/off and fresh/after-history differential",
+            "Generated kernels run with collection off, in a fresh session, and again after 0-3 earlier sessions (other "
+            "kernels, matchRanks, associateShape, other flush thresholds); results and stored trees on vs off, Metrics.dump "
+            "counts vs the interpreter's own counters, numIters vs bodies executed, consumable vs file rows, identical "
+            "dump and byte-identical trace files fresh vs after history.",
+            "Only the loop nest runs inside a session (operands prepared before); matchRanks closures never join two loop "
+            "ranks of one kernel."),
     "C17": ("Hypothesis PBT + exhaustive small domain: buffet window accounting, furthest-next-use reference and "
             "exhaustive optimal-replacement search, metamorphic relations",
             "Synthetic and kernel-derived traces, 1-3 bindings, all evict-on choices, capacities and line sizes; buffet "
